@@ -624,4 +624,112 @@ Proof.
   - eapply act_Print; eauto.
 Qed.
 
+(* ------------------------------------------------------------------ preservation and absence of errors, one step *)
+(* the part of `Topo` that typing cannot give: nobody sends on or listens to a closed channel *)
+Definition closed_unused (md : exec_mode) (c : config) : Prop :=
+  forall self p k st, procs c !! self = Some p ->
+    (action_of md D p = ARecv k \/ exists m, action_of md D p = ASend k m) ->
+    chans c !! k = Some st -> ch_closed st = false.
+
+Lemma put_none_procs c k st : procs (put_msg c k st None) = procs c.
+Proof. reflexivity. Qed.
+
+(* one step of one process: the three possible outcomes under typing *)
+Lemma step_run_typed Δ c self :
+  cfg_typed Δ c -> closed_unused Async c ->
+  step Async D F c (Run self) = SNotEnabled \/
+  exists c' Δ', step Async D F c (Run self) = SStep c' /\ Δ ⊆ Δ' /\ cfg_typed Δ' c'.
+Proof.
+  intros Hc Hcl. pose proof Hc as [Hp Hm Hd Hf]. simpl.
+  destruct (procs c !! self) as [p|] eqn:Ep; [|left; reflexivity].
+  pose proof (typed_action Δ p (Hp _ _ Ep)) as Hv.
+  remember (action_of Async D p) as a eqn:Ea. symmetry in Ea.
+  destruct Hv as [k m Hmsg|k Hk Hrecv|Hint].
+  2: { (* receive *)
+    destruct (Hd k Hk) as [st Hst]. rewrite Hst.
+    destruct (ch_buf st) as [m|] eqn:Eb.
+    + destruct (Hrecv self m (Hm _ _ _ Hst Eb)) as [e [He Heff]].
+      right. rewrite He. simpl. exists (apply_effect (put_msg c k st None) self p e), Δ. split; auto.
+      split; [reflexivity|].
+      eapply apply_effect_typed; eauto. eapply put_none_typed; eauto.
+    + rewrite (Hcl self p k st Ep (or_introl Ea) Hst). left. reflexivity. }
+  2: { (* internal *)
+    destruct (Hint self) as [e [Δ' [He Heff]]].
+    { apply (Hf self p (pr_next p) [] Ep). lia. }
+    right. rewrite He. simpl. exists (apply_effect c self p e), Δ'. split; auto.
+    split; [destruct Heff as [p' [_ [Hsub _]]]; exact Hsub|].
+    eapply apply_effect_typed; eauto. }
+  - (* send *)
+    destruct Hmsg as [T [HT Hmsg']].
+    destruct (Hd k) as [st Hst]; [eauto|]. rewrite Hst.
+    rewrite (Hcl self p k st Ep (or_intror (ex_intro _ m Ea)) Hst).
+    destruct (ch_buf st) eqn:Eb; [left; reflexivity|].
+    right. eexists. exists Δ. split; [reflexivity|]. split; [reflexivity|].
+    eapply send_typed_cfg; eauto. exists T. auto.
+Qed.
+
+Theorem preservation Δ c self c' :
+  cfg_typed Δ c -> closed_unused Async c -> step Async D F c (Run self) = SStep c' ->
+  exists Δ', Δ ⊆ Δ' /\ cfg_typed Δ' c'.
+Proof.
+  intros Hc Hcl Hs. destruct (step_run_typed Δ c self Hc Hcl) as [H|[c2 [Δ' [H [H1 H2]]]]]; rewrite H in Hs.
+  - discriminate.
+  - injection Hs as <-. eauto.
+Qed.
+
+Lemma step_async_run c ch : (forall self, ch <> Run self) -> step Async D F c ch = SNotEnabled.
+Proof. intros H. destruct ch as [self|s r|f t]; simpl; auto. exfalso. eapply H; eauto. Qed.
+
+(* no run-time error of any kind: message kind / label / shape, call instantiation, unknown
+   channels (typing), closed channels (`closed_unused`) *)
+Theorem no_error_async Δ c ch who e :
+  cfg_typed Δ c -> closed_unused Async c -> step Async D F c ch <> SError who e.
+Proof.
+  intros Hc Hcl. destruct ch as [self|s r|f t]; try (rewrite step_async_run by discriminate; discriminate).
+  destruct (step_run_typed Δ c self Hc Hcl) as [H|[c2 [Δ' [H _]]]]; rewrite H; discriminate.
+Qed.
+
+Theorem preservation_any Δ c ch c' :
+  cfg_typed Δ c -> closed_unused Async c -> step Async D F c ch = SStep c' ->
+  exists Δ', Δ ⊆ Δ' /\ cfg_typed Δ' c'.
+Proof.
+  intros Hc Hcl Hs. destruct ch as [self|s r|f t]; try (rewrite step_async_run in Hs by discriminate; discriminate).
+  eapply preservation; eauto.
+Qed.
+
+(* ------------------------------------------------------------------ whole runs *)
+Inductive reachable (c0 : config) : config -> Prop :=
+| reach_refl : reachable c0 c0
+| reach_step c ch c' : reachable c0 c -> step Async D F c ch = SStep c' -> reachable c0 c'.
+
+Lemma exec_run_S fuel pick md c :
+  exec_run (S fuel) pick md D F c =
+  match enabled md D F c with
+  | [] => RQuiescent c
+  | e0 :: es =>
+    let n := S (length es) in
+    let ch := nth (pick (S fuel) n mod n) (e0 :: es) e0 in
+    match step md D F c ch with
+    | SStep c' => exec_run fuel pick md D F c'
+    | SError who w => RError c who w
+    | SNotEnabled => RQuiescent c
+    end
+  end.
+Proof. reflexivity. Qed.
+
+Theorem exec_run_safe fuel pick : forall Δ c,
+  cfg_typed Δ c -> (forall c', reachable c c' -> closed_unused Async c') ->
+  forall c' who e, exec_run fuel pick Async D F c <> RError c' who e.
+Proof.
+  induction fuel as [|fuel IH]; intros Δ c Hc Hcl c' who e; [simpl; discriminate|].
+  rewrite exec_run_S.
+  destruct (enabled Async D F c) as [|e0 es]; [discriminate|]. cbv zeta.
+  set (ch := nth (pick (S fuel) (S (length es)) mod S (length es)) (e0 :: es) e0).
+  destruct (step Async D F c ch) as [|c2|who' e'] eqn:Es; [discriminate| |].
+  - destruct (preservation_any Δ c ch c2 Hc (Hcl c (reach_refl c)) Es) as [Δ' [_ Hc2]].
+    apply (IH Δ' c2 Hc2). intros c3 Hr. apply Hcl.
+    clear -Hr Es. induction Hr; [eapply reach_step; [apply reach_refl|eauto] | eapply reach_step; eauto].
+  - exfalso. eapply no_error_async; eauto. apply Hcl. apply reach_refl.
+Qed.
+
 End RtSafety.
